@@ -53,12 +53,42 @@ def parseEv (nf : Nat) (cfg : Bytes) : List String → Option Ev
   | _ => none
 
 structure DD extends D where
+  /-- always-available mini-history (publisher switch): spec only through `pubStep` -/
+  aa : Bool := false
+  pub : PubSt := {}
   nf : Nat := 0
   /-- configuration of the MPEG-4 Video format (format 3), tracked with C22's updater model -/
   cfg : Bytes := []
 
+def pubAnswer (o : Option Nat) : String := match o with | some t => s!"got={t}" | none => "got=-"
+
+def stepAA (d : DD) (ws : List String) (impl : String) : DD × DrvOut :=
+  if impl == "bad-op" then (d, { model := "bad-op" }) else
+  let ev : Option PubEv := match ws with
+    | ["aapub"] => some .pub
+    | ["aawrite", p, tag] => do pure (.write (← p.toNat?) (← tag.toNat?))
+    | ["aarace", p, tag] => do pure (.race (← p.toNat?) (← tag.toNat?))
+    | _ => none
+  match ev with
+  | none => (d, { model := "bad-op" })
+  | some ev =>
+    let r := pubStep d.pub ev
+    let model := match ev with | .pub => "ok" | _ => pubAnswer r.2
+    let spec :=
+      if impl == model then "ok"
+      else match ev with
+        | .pub => "FAIL publisher sub stream could not be initialised: " ++ impl
+        | _ =>
+          if r.2.isNone then "FAIL readers received a unit from a publisher that is not (or no longer) the current one"
+          else "FAIL the current publisher's unit was not delivered"
+    ({ d with pub := r.1 }, { model, spec })
+
 def stepD (d : DD) (op impl : String) : DD × DrvOut :=
   match words op with
+  | ["reset", _cap, _nf, "aa"] => ({ aa := true }, { model := "ok" })
+  | "aapub" :: _ => stepAA d (words op) impl
+  | "aawrite" :: _ => stepAA d (words op) impl
+  | "aarace" :: _ => stepAA d (words op) impl
   | "reset" :: cap :: nf :: _share =>
     match cap.toNat?, nf.toNat? with
     | some cap, some nf => ({ st := { cap := cap }, sp := { cap := cap }, ok := true, nf := nf }, { model := "ok" })
